@@ -193,6 +193,11 @@ def pieces_repr(o):
         return ["b'"] + list(o.pieces) + ["'"]
     if isinstance(o, HWrap):
         return [('wrap', 'pyhash', SymStr(pieces_repr(o.key)))]
+    if isinstance(o, tuple) and hasattr(o, '_fields'):
+        out = [type(o).__name__ + '(']
+        for i, (n, x) in enumerate(zip(o._fields, o)):
+            out += ([', '] if i else []) + [n + '='] + pieces_repr(x)
+        return out + [')']
     if type(o) is tuple:
         if len(o) == 1:
             return ['('] + pieces_repr(o[0]) + [',)']
